@@ -300,6 +300,31 @@ def judge(case, part):
     xbc = check_routes(xb, C, cn, "B->C")
     if xbc is not None and not _close(xbc, np.asarray(xc), eps, zsi, float(C.base_value)):
         bad("composition", via_B=xbc, direct=xc, B_value=xb)
+    # ---- the same laws along one chain of objects the library handed back: a copy in the source's own unit (and one in
+    # B), converted in place step by step, while the source is asked again afterwards -- A->A and A->B must not stay
+    # attached to their source, otherwise A->C taken after the chain differs from A->C taken before it
+    for first, fU in (("own-unit", A), ("B", B)):
+        x0 = x.copy()
+        before = np.asarray(x0).tobytes()
+
+        def chain():
+            y = x0.to(fU)
+            if first == "own-unit":
+                y.convert_to_units(B)
+            y.convert_to_units(C)
+            return y, x0.to(C)
+        st_, r = _try(chain)
+        if st_ == "err":
+            if not (x.dtype.kind in "iu" and x.dtype.itemsize == 1):
+                part.count("chain on returned objects raises (judged by the route clauses)")
+            continue
+        y, direct = r
+        if np.asarray(x0).tobytes() != before or not _same_units(x0.units, A):
+            bad(f"chain-on-returned-objects:source-changed:{first}", source_now=x0, source_was=x)
+        elif not _close(np.asarray(direct), np.asarray(xc), eps, zsi, float(C.base_value)):
+            bad(f"chain-on-returned-objects:A->C-after-the-chain-differs:{first}", after=direct, before=xc)
+        elif not _close(np.asarray(y), np.asarray(xc), eps, zsi, float(C.base_value), k=256):
+            bad(f"chain-on-returned-objects:in-place-chain-differs-from-A->C:{first}", chain=y, direct=xc)
     # ---- exact value for generated affine parameters
     if fam == "custom":
         def aff(name):
